@@ -520,7 +520,7 @@ def main(ctx, args):
             if fn.endswith(".json"):
                 c = json.load(open(os.path.join(cdir, fn)))
                 cases.append({"id": "corpus:" + fn[:-5], "src": c["src"], "sx": c.get("sx"), "inputs": c.get("inputs", []), "times": c.get("times", 8),
-                              "expect": c.get("expect")})
+                              "expect": c.get("expect"), "shapes": c.get("shapes", {})})
         plan = ([("scalar", 30), ("core", 50), ("deep", 20)] if ctx.tier == "quick" else
                 [("scalar", 500), ("core", 900), ("deep", 300), ("closure_assign", 100), ("nolam", 100), ("notup", 100)])
         for prof, n in plan:
@@ -574,6 +574,9 @@ def main(ctx, args):
                 if fn is not None:
                     lay_lines.append(f"lay\t{len(lay_meta)}\t{shape_of(fn.body)}\n")
                     lay_meta.append(idx)
+            elif f["label"] in c.get("shapes", {}):           # corpus programs carry hand-written shapes (match / enum)
+                lay_lines.append(f"lay\t{len(lay_meta)}\t{c['shapes'][f['label']]}\n")
+                lay_meta.append(idx)
         if lay_lines:
             ql = driver("C18", input="".join(lay_lines)).stdout.splitlines()
             for j, idx in enumerate(lay_meta):
@@ -661,7 +664,8 @@ def main(ctx, args):
         ctx.violation(f"{why} — {len(failures)} programs; smallest:\n{rep['src']}", rep)
     if enc_bad and not failures:
         enc_bad.sort(key=lambda d: len(d["src"]))
-        ctx.violation(f"dispatch loop of the generated text differs from Model/RustGen.lean `encode` of the MIR control skeleton in {len(enc_bad)} functions (first: {enc_bad[0]['function']})",
+        what = enc_bad[0].get("note") or "dispatch loop of the generated text differs from Model/RustGen.lean `encode` of the MIR control skeleton"
+        ctx.violation(f"{what} — {len(enc_bad)} functions (first: {enc_bad[0]['function']} of\n{enc_bad[0]['src']})",
                       dict(enc_bad[0], stage="encode", correspondence="emitted dispatch loop vs encode", cases=len(enc_bad)), found_input=False)
     if not proved and not failures:
         ctx.violation("proof obligation broken: " + "; ".join(ctx._broken), {"stage": "prove", "theorems": ctx._broken,
